@@ -10,7 +10,8 @@ RULE = ('cases = operation sequences (<=30 ops) over one SimulatedClock whose re
         '(sismic.clock.clock.time) is replaced by a scripted function: start, stop, speed=s '
         '(multiples of 1/8 in [0,16]), time=x (x below, equal to, or above the current value), '
         'real time passes by dt (multiples of 1/64), read, and execute_once of an interpreter '
-        'using the clock (for SynchronizedClock). An exact model (Fractions) predicts every read: '
+        'using the clock (for SynchronizedClock), and copy (deepcopy or pickle round trip of '
+        'clock + interpreter + SynchronizedClock together; the copies replace the originals). An exact model (Fractions) predicts every read: '
         'never decreasing, frozen while stopped, speed x elapsed while started, rejected '
         'assignment raises ValueError and changes nothing, accepted assignment takes effect '
         'exactly; SynchronizedClock(i).time == i.time == clock value at the last execute_once. '
@@ -28,7 +29,8 @@ def strategy(tier):
         st.tuples(st.just('speed'), st.integers(0, 128).map(lambda n: n / 8)).map(list),
         st.tuples(st.just('set'), st.integers(-256, 640).map(lambda n: n / 64)).map(list),
         st.tuples(st.just('pass'), dt).map(list), st.tuples(st.just('pass'), dt).map(list),
-        st.just(['read']), st.just(['exec']))
+        st.just(['read']), st.just(['exec']),
+        st.sampled_from([['copy', 'deepcopy'], ['copy', 'pickle']]))
     return st.tuples(st.booleans(), st.lists(op, min_size=3, max_size=30)).map(
         lambda t: {'ops': ([['start']] if t[0] else []) + t[1]})
 
@@ -67,6 +69,7 @@ def oracle(case):
         last_exec = Fraction(interp.time)
         changed_while_running = False
         nontrivial = False
+        copied = False
 
         def bad(kind, i, **d):
             viol.append({'prop': PROP, 'kind': kind, 'step': i, 'detail': d})
@@ -145,7 +148,21 @@ def oracle(case):
                 m.real += Fraction(op[1])
                 if changed_while_running and m.running and op[1] > 0:
                     nontrivial = True
+            elif k == 'copy':
+                # the clock, the interpreter using it and the clock following that interpreter
+                # are copied together and the copies replace them: same state, same relations
+                import copy as _copy
+                import pickle as _pickle
+                if op[1] == 'deepcopy':
+                    clock, interp, sync = _copy.deepcopy((clock, interp, sync))
+                else:
+                    clock, interp, sync = _pickle.loads(_pickle.dumps((clock, interp, sync)))
+                labels['copies'] = labels.get('copies', 0) + 1
+                copied = True
             elif k == 'exec':
+                if copied and Fraction(m.read()) != last_exec:
+                    labels['steps of a copied interpreter at a later time'] = labels.get(
+                        'steps of a copied interpreter at a later time', 0) + 1
                 interp.execute_once()
                 last_exec = m.read()
                 if Fraction(interp.time) != last_exec:
